@@ -129,6 +129,28 @@ fn main() {
                 std::fs::write(&out, text).unwrap();
             }
         }
+        "scan-f32-double-rounding" => {
+            // tool (not part of any check): every finite f32 whose `Display` text, parsed as f64 and then narrowed to f32, is NOT the
+            // value itself (decimal -> f64 -> f32 double rounding).  The result is the corpus `F32_DOUBLE_ROUNDING` of c14.rs.
+            let threads = 16u64;
+            let hs: Vec<_> = (0..threads).map(|t| std::thread::spawn(move || {
+                let mut out = vec![];
+                let mut b = t as u32;
+                loop {
+                    let v = f32::from_bits(b);
+                    if v.is_finite() {
+                        let txt = format!("{v}");
+                        let via = txt.parse::<f64>().unwrap() as f32;
+                        if via.to_bits() != b { out.push(b); }
+                    }
+                    match b.checked_add(threads as u32) { Some(n) if n < 0x8000_0000 => b = n, _ => break }
+                }
+                out
+            })).collect();
+            let mut all: Vec<u32> = hs.into_iter().flat_map(|h| h.join().unwrap()).collect();
+            all.sort();
+            println!("{:x?}", all);
+        }
         "probe-parse-deep" => {
             // child-process entry point of C02's deep-nesting stream: exit 0 = parsed, 3 = error value, anything else (a signal
             // after stack exhaustion, a panic) = the parser is not total on this text
